@@ -242,6 +242,12 @@ fn confirm_crash(cl: &Class, h: &[Op]) -> String {
     }
 }
 
+/// everything that determines the future behaviour of a map value, as a string
+fn state_sig(v: &Value) -> String {
+    let d = uiua::verif::map_dump(v).map(|d| (format!("{:?}", d.0.rows().map(|r| format!("{}{:?}", r.type_name(), r.show())).collect::<Vec<_>>()), d.1, d.2, d.3));
+    format!("{}{:?}|{:?}|{:?}", v.type_name(), v.shape, d, v.rows().map(|r| r.show()).collect::<Vec<_>>())
+}
+
 fn classify_err(e: String) -> Out {
     if e.contains("Key not found") { Out::Missing } else { Out::Err(e) }
 }
@@ -487,6 +493,15 @@ impl Findings {
     }
     fn print(&self, n: usize) {
         for (key, (count, h, detail, cname)) in &self.by_key {
+            // a divergence seen by an observer: show the observer as the last step of the program
+            let mut h = h.clone();
+            if let Some(tok) = detail.split_whitespace().next() {
+                let (c, rest) = tok.split_at(1);
+                if matches!(c, "g" | "h" | "n" | "u") && rest.chars().all(|ch| ch.is_ascii_digit()) && detail.contains(" gives ") {
+                    h.extend(parse_hist(tok));
+                }
+            }
+            let h = &h;
             let cl = class(cname, n.max(h.iter().map(max_key).max().unwrap_or(0) + 1));
             println!(
                 "{{\"violation\":{},\"count\":{count},\"class\":{},\"history\":{},\"program\":{},\"detail\":{}}}",
@@ -553,6 +568,9 @@ struct Exh<'a> {
     pruned: usize,
     max_cap: usize,
     f: Findings,
+    /// state -> largest remaining depth already explored from it (only with `memo`)
+    memo: Option<std::collections::HashMap<String, usize>>,
+    memo_hits: usize,
 }
 
 impl Exh<'_> {
@@ -561,6 +579,18 @@ impl Exh<'_> {
         if depth == 0 {
             self.histories += 1;
             return;
+        }
+        if let Some(memo) = &mut self.memo {
+            let sig = format!("{}#{:?}", state_sig(m), a.iter().map(|p| (p.0.show(), p.1.show())).collect::<Vec<_>>());
+            match memo.get(&sig) {
+                Some(&d) if d >= depth => {
+                    self.memo_hits += 1;
+                    return;
+                }
+                _ => {
+                    memo.insert(sig, depth);
+                }
+            }
         }
         for oi in 0..self.muts.len() {
             let op = self.muts[oi].clone();
@@ -815,7 +845,7 @@ fn main() {
             f.print(4);
             for cname in classes {
                 let cl = class(cname, 4);
-                let mut e = Exh { env: Uiua::with_safe_sys(), cl: &cl, muts: mutators(4, 2), evals: 0, nodes: 0, histories: 0, pruned: 0, max_cap: 0, f: Findings::default() };
+                let mut e = Exh { env: Uiua::with_safe_sys(), cl: &cl, muts: mutators(4, 2), evals: 0, nodes: 0, histories: 0, pruned: 0, max_cap: 0, f: Findings::default(), memo: if args.get(3).map(|s| s == "memo").unwrap_or(false) { Some(Default::default()) } else { None }, memo_hits: 0 };
                 let depth = if cname == "int" { a2 } else { a2.saturating_sub(1).max(1) };
                 let m0 = empty_map();
                 if let Err(err) = observe(&e.env, &cl, &m0, &Vec::new(), &mut e.evals) {
@@ -823,14 +853,17 @@ fn main() {
                 }
                 e.dfs(&m0, &Vec::new(), &mut Vec::new(), depth);
                 println!(
-                    "{{\"phase\":\"exhaustive\",\"class\":{},\"depth\":{depth},\"mutators\":{},\"nodes\":{},\"histories\":{},\"pruned_at_violation\":{},\"evaluations\":{},\"max_capacity\":{}}}",
+                    "{{\"phase\":\"exhaustive\",\"class\":{},\"depth\":{depth},\"mutators\":{},\"nodes\":{},\"histories\":{},\"pruned_at_violation\":{},\"evaluations\":{},\"max_capacity\":{},\"memoised\":{},\"distinct_states\":{},\"memo_hits\":{}}}",
                     jstr(cname),
                     e.muts.len(),
                     e.nodes,
                     e.histories,
                     e.pruned,
                     e.evals,
-                    e.max_cap
+                    e.max_cap,
+                    e.memo.is_some(),
+                    e.memo.as_ref().map(|m| m.len()).unwrap_or(0),
+                    e.memo_hits
                 );
                 e.f.print(4);
             }
@@ -881,11 +914,7 @@ fn main() {
                     if use_interp && bad.is_none() {
                         let (m3, out3) = apply_interp(&cl, &m, &op);
                         interp_checked += 1;
-                        let same_state = match (&m2, &m3) {
-                            (Some(x), Some(y)) => x == y && uiua::verif::map_dump(x).map(|d| (d.1, d.2)) == uiua::verif::map_dump(y).map(|d| (d.1, d.2)),
-                            (None, None) => true,
-                            _ => false,
-                        };
+                        let same_state = m2.as_ref().map(state_sig) == m3.as_ref().map(state_sig);
                         if !out_matches(&out3, &out) || !same_state {
                             bad = Some(format!("interpreter and Value API disagree on {}: {} vs {}", show_op(&op), show_out(&out3), show_out(&out)));
                         }
@@ -949,8 +978,8 @@ fn main() {
 fn tie(rng: &mut Rng, n: usize, maxlen: usize) {
     let env = Uiua::with_safe_sys();
     for hi in 0..n {
-        let cname = ["int", "char", "int", "nan"][hi % 4];
-        let nkeys = [4usize, 12, 40][(hi / 4) % 3];
+        let cname = ["int", "char", "int", "nan", "char", "int", "nan", "int"][hi % 8];
+        let nkeys = [4usize, 12, 40][(hi / 8) % 3];
         let cl = class(cname, nkeys);
         let len = 1 + rng.below(maxlen);
         let mut m = empty_map();
@@ -959,9 +988,24 @@ fn tie(rng: &mut Rng, n: usize, maxlen: usize) {
         let mut max_cap = 0usize;
         let mut problem: Option<String> = None;
         let mut errors = 0usize;
+        let mut corrupt = 0usize;
+        let mut alist: AList = Vec::new();
         let mut rows = 0usize;
         for _ in 0..len {
-            let op = gen_op(rng, nkeys, rows, true);
+            let mut op = gen_op(rng, nkeys, rows, true);
+            // three histories in four stay clear of the known defects (so that they run long and the
+            // table grows); the fourth walks into them and is compared up to the corrupting step
+            if hi % 4 != 3 && cl.nan.is_none() {
+                let risky = match &op {
+                    Op::Drop(n) => *n >= alist.len() && !alist.is_empty(),
+                    Op::Join(l) => l.iter().filter(|p| a_pos(&alist, &cl.keys[p.0]).is_some()).count() >= 2,
+                    _ => false,
+                };
+                if risky {
+                    op = Op::Unmap;
+                }
+            }
+            alist = spec_step(&cl, &alist, &op).0;
             h.push(op.clone());
             if std::env::var("VERIF_TRACE").is_ok() {
                 eprintln!("{hi} {cname} {}", show_hist(&h));
@@ -969,7 +1013,7 @@ fn tie(rng: &mut Rng, n: usize, maxlen: usize) {
             let (m2, out) = apply_interp(&cl, &m, &op);
             // the interpreter and the Value API must agree (harness self-check)
             let (m2b, outb) = apply_api(&env, &cl, &m, &op);
-            if !out_matches(&out, &outb) || m2.is_some() != m2b.is_some() || (m2.is_some() && m2 != m2b) {
+            if !out_matches(&out, &outb) || m2.as_ref().map(state_sig) != m2b.as_ref().map(state_sig) {
                 problem = Some(format!("interpreter and Value API disagree on {}", show_op(&op)));
             }
             if out == Out::Err(RECURSE.into()) {
@@ -988,6 +1032,13 @@ fn tie(rng: &mut Rng, n: usize, maxlen: usize) {
             m = m2;
             if failed {
                 errors += 1;
+                break;
+            }
+            // a step that corrupts the map (one of the known defects) is still compared with the
+            // model, but the history ends there: what the code does with a corrupt map (overflow
+            // panics in the verif profile, ...) is outside the model
+            if uiua::verif::check_value(&m).is_err() {
+                corrupt = 1;
                 break;
             }
         }
@@ -1013,7 +1064,7 @@ fn tie(rng: &mut Rng, n: usize, maxlen: usize) {
             problem = Some(format!("capacity {max_cap} is not a power of two"));
         }
         println!(
-            "{{\"id\":{hi},\"class\":{},\"nkeys\":{nkeys},\"nan\":{},\"tbl\":{},\"he\":\"{he}\",\"ht\":\"{ht}\",\"obs\":{},\"steps\":{},\"errors\":{errors},\"max_capacity\":{max_cap},\"history\":{},\"problem\":{}}}",
+            "{{\"id\":{hi},\"class\":{},\"nkeys\":{nkeys},\"nan\":{},\"tbl\":{},\"he\":\"{he}\",\"ht\":\"{ht}\",\"obs\":{},\"steps\":{},\"errors\":{errors},\"corrupt\":{corrupt},\"max_capacity\":{max_cap},\"history\":{},\"problem\":{}}}",
             jstr(cname),
             if cl.nan.is_some() { NAN_CODE.to_string() } else { "null".into() },
             jstr(&format!("[{}]%N", tbl.join("; "))),
